@@ -564,7 +564,7 @@ theorem ext_requestTerminate (s : EState) (k r : String) : Ext s (requestTermina
   split
   · exact ext_refuse s k
   · split
-    · exact (ext_of_ru hp).trans (ext_refuse _ _)
+    · exact ext_refuse _ _
     · rename_i s' hs
       exact (ext_of_ru hp).trans ((ext_setState hs).trans (ext_of_ru (ha _ _)))
 
